@@ -187,7 +187,7 @@ def _r2(ctx, pkg):
               "can enter, or spellings of one species (E / e-, another surface prefix) are compared by text instead of Species equality",
               expected="if self._allowed_species and not all([rp in self._allowed_species for rp in reaction.reactants + reaction.products]): skip", found=detail[:300])
     ok_skip = len(skip) == 1 and simp(skip[0].value[3][0]) == reac and \
-        any(p and any(x[0] == "unop" and x[1] == "Not" and is_all_test(x[2]) for x in _flat_and(simp(g))) for g, p in skip[0].guards)
+        any((p and any(x[0] == "unop" and x[1] == "Not" and is_all_test(x[2]) for x in _flat_and(simp(g)))) or (not p and is_all_test(simp(g))) for g, p in skip[0].guards)
     ctx.check(ok_skip, "R2", "_add_reaction:rejected are remembered", (NF, skip[0].line if skip else fn.lineno),
               "a rejected reaction is recorded in _skipped_reactions (so a later change of the allowed list can re-admit it)")
     # cache updates use the appended reaction
